@@ -343,6 +343,8 @@ def classify_run(k, elapsed, out, exc):
 
 def run_histories(hists, base: Path, nproc: int = 16):
     """hists: list of lists of programs.  Returns per history: list of run records + follow-ups."""
+    common.use_repo()
+    import wikitextprocessor  # noqa: F401  (imported once here, inherited by the forked children: 0.3 s of CPU per child)
     mpc = mp.get_context("fork")
     pending = list(enumerate(hists))
     running = []
@@ -797,7 +799,9 @@ def _run(o, thorough, hd: Path) -> int:
         want_follow = [w for _, w in FOLLOW]
         if fresh != want_follow:
             raise RuntimeError(f"benign modules do not run on a fresh context: {[(a, b) for a, b in zip(fresh, want_follow) if a != b][:2]}")
-        res = run_histories([[c] for c in cases], d / "single")
+        # an executing program WAITS for the clock (busy, but the abort comes at a full second whatever share of a core it
+        # gets): twice as many children as cores.  Whatever comes out late or hung is re-executed below, few at a time.
+        res = run_histories([[c] for c in cases], d / "single", nproc=32)
         # Every verdict of this check depends on time (a starved child process is "late" or "hung", a benign
         # follow-up can run out of its limit): anything that is not what the property demands is re-executed
         # (few at a time) before it is believed - whether or not a modelled deviation would explain it.
